@@ -455,10 +455,35 @@ impl<
         // notifier whose trigger was already consumed by the `empty_buffer()` call of a previous
         // drain. If we would go to sleep with it, that notifier would set the state to NOTIFIED
         // afterwards and every later notifier would skip the trigger while we are sleeping on an
-        // empty trigger - a lost wake-up. Resetting the state to IDLE before waiting guarantees
-        // that every notification that arrives from now on triggers the waiter.
-        mgmt.notification_state
-            .store(NOTIFICATION_STATE_IDLE, Ordering::SeqCst);
+        // empty trigger - a lost wake-up. Therefore PENDING is reset to IDLE before waiting, which
+        // guarantees that every notification that arrives from now on triggers the waiter.
+        // The reset must not overwrite a NOTIFIED state that the notifier has set in the
+        // meantime: another notifier may already have skipped its trigger because of it, so in
+        // that case the events are drained right away instead of waiting.
+        loop {
+            match mgmt.notification_state.compare_exchange(
+                NOTIFICATION_STATE_PENDING,
+                NOTIFICATION_STATE_IDLE,
+                Ordering::SeqCst,
+                Ordering::SeqCst,
+            ) {
+                Ok(_) | Err(NOTIFICATION_STATE_IDLE) => break,
+                Err(_) => {
+                    if mgmt
+                        .notification_state
+                        .compare_exchange(
+                            NOTIFICATION_STATE_NOTIFIED,
+                            NOTIFICATION_STATE_IDLE,
+                            Ordering::SeqCst,
+                            Ordering::SeqCst,
+                        )
+                        .is_ok()
+                    {
+                        return drain();
+                    }
+                }
+            }
+        }
         fail!(from self, when wait_call(),
             "{msg} since the underlying wait call failed.");
         mgmt.notification_state
